@@ -12,12 +12,19 @@
 EXTENDS Naturals, Sequences, FiniteSets, TLC
 
 CONSTANTS
+  \* @type: Bool;
   InvalidateFirst,  \* TRUE = the repaired protocol: meta.json is dropped before the index
                     \*        directory is removed / recreated.  FALSE = protocol as pinned.
+  \* @type: Bool;
   MetaBeforeCommit, \* FALSE; TRUE models the mutant "write_meta before commit" (selftest)
+  \* @type: Int;
   NDocs,            \* number of shipped documents in the model (abstract; 2 is enough to
                     \* distinguish none / some / all staged)
-  MaxFaults, MaxCrashes   \* bounds on external faults / kills per behaviour (0 = unbounded)
+  \* @type: Int;
+  MaxFaults,
+  \* @type: Int;
+  MaxCrashes        \* bounds on external faults / kills per behaviour (0 = unbounded)
+\* (the type annotations in comments are for Apalache, StoreInd.tla; TLC ignores them)
 
 \* what a *committed* index answers with
 \*   "New"   = exactly the shipped data            "Old" = some other data set
@@ -30,21 +37,37 @@ MetaVals == {"Absent", "Garbage", "NoHash", "OtherVersion", "OtherHash", "Curren
 IdxVals  == {"Absent", "NoIndex"} \cup Contents
 
 VARIABLES
-  meta, idx,                 \* the data directory
+  \* @type: Str;
+  meta,
+  \* @type: Str;
+  idx,                       \* the data directory
+  \* @type: Str;
   pc,                        \* program counter of the single process ("stopped" = not running)
+  \* @type: Bool;
   mem,                       \* TRUE = Db::in_memory session (reads meta, never writes the directory)
+  \* @type: Str;
   rmeta,                     \* what config::open read
+  \* @type: Bool;
   rebuild,                   \* the `rebuild` flag of open_inner
-  staged,                    \* documents added to the writer, not yet committed (0..NDocs), -1 = no writer
+  \* @type: Int;
+  staged,                    \* documents added to the writer, not yet committed (0..NDocs), NDocs + 1 = no writer
+  \* @type: Bool;
   deleted,                   \* delete_all_documents staged
+  \* @type: Str;
   view,                      \* what this process' searcher sees ("none" before a reader exists)
+  \* @type: Str;
   ram,                       \* contents of the in-memory index of an in-memory session
-  faults, crashes
+  \* @type: Int;
+  faults,
+  \* @type: Int;
+  crashes
+\* @type: <<Str, Str>>;
 dirvars  == <<meta, idx>>
 procvars == <<pc, mem, rmeta, rebuild, staged, deleted, view, ram>>
 vars == <<meta, idx, pc, mem, rmeta, rebuild, staged, deleted, view, ram, faults, crashes>>
 
 \* directory states a crash-free history of this and other versions of the tool leaves behind
+\* @type: Set(<<Str, Str>>);
 Consistent == { <<"Absent", "Absent">>,        \* first start ever
                 <<"OtherVersion", "Old">>,     \* written by another version
                 <<"OtherHash", "Old">>,        \* written for other data
